@@ -36,6 +36,10 @@ CHECKS = {
    technique="TLA+ spec (GraphBFS.tla: reachability-with-limits rule + add_nodes/add_to_graph hop machine) model-checked with TLC; every enumerated relation realised as a Fortran project and the real ford.graphs objects compared with Ref; add_to_graph calls recorded and checked",
    text="TLC checks ModelEqualsReach, EdgesJoinPresentNodes and WithinLimit for the hop-by-hop expansion machine over all relations on 3-4 nodes x graph_maxdepth 1..3 x graph_maxnodes {1,2,3,99} (and shows that a >= in the limit test is caught). Each relation is realised as module USE, call, type-composition and type-extension projects; for every entity the forward and the inverse per-entity graph built by the real code (limits given project-wide or in the entity's own metadata) must show exactly Ref's nodes, only edges of the relation between shown nodes including all edges of expanded nodes, the table fallback when hop one does not fit, and never a dangling edge; `graph: false` is checked on a sample.",
    note="Bounded to <=4 nodes per relation; graphs built through GraphManager as the repository's own fixture does, DOT source compared (SVG rendering off in the API tier). Trusted: TLC, graphviz python package's DOT emission, renderer."),
+ "C19": dict(level="fault_enumeration", ref="DESIGN.md 6/C19, 4.11, B.13",
+   technique="TLA+ spec (FsRun.tla: placements x crash points; FsRun_Trace.tla) checked with TLC; real `python -m ford` runs in sandbox trees with a failure injected at each successive mutating file-system call, whole-sandbox before/after snapshots, intercepted call log validated by TLC",
+   text="TLC checks TouchedUnderRoots, SourcesSurvive, RefusedBeforeAnyDelete and RefusesWhenItMust over 14 placements (incl. symlinks and '..') and a crash before every step, and shows the two refusal-test deviations (no symlink resolution, last src_dir only) are caught. For every placement the real CLI is run with all copying options on, once cleanly and once per injected failure point (k-th mutating call raises EIO; every k in thorough, a seeded subset in quick); content hash + mode + link target of the whole sandbox are compared before/after and only paths under the resolved output / graph roots may differ; placements with a source directory inside the output directory must be refused with an untouched tree; the logged calls are replayed by TLC against the phase model.",
+   note="Faults are injected at Python-level file-system calls (os.*, open, os.open) through a sitecustomize shim in the child's PYTHONPATH; child processes (dot) are covered by the snapshot only. Trusted: the shim, realpath, TLC."),
 }
 
 NOT_YET = {}
